@@ -97,6 +97,20 @@ def run(ctx):
             ctx.fail("exotic-cell-not-parsed-back", f"after BoC round trip: {r[:80]}", {"dag": d, "route": "boc"})
     ctx.extra["boc_roundtrips"] = nb
 
+    # history route: a cell taken from a slice (slice.to_cell()) while the slice is read on, and a cell whose slice and
+    # builder views were used, must keep reporting the same mask, hashes and depths at every level (a pruned branch reads
+    # its stored depths and hashes from its data on every call)
+    nh = 0
+    for d, a in zip(dags, impl_out):
+        if a.startswith("err") or not spec_valid(d):
+            continue
+        nh += 1
+        r = core.call_impl(lambda _: _slice_history_route(d), None)
+        if r != a:
+            ctx.fail("exotic-cell-changes-after-slice-history", f"after slice.to_cell() and further reads: {r[:80]}",
+                     {"dag": d, "route": "slice-history"})
+    ctx.extra["slice_histories"] = nh
+
     # parse route 2: a foreign conforming encoding of the same tree, every cell carrying stored hashes/depths
     # (popcount(mask)+1 of them) and random admissible widths: "every such spec-valid cell can be ... parsed"
     nf = 0
@@ -204,6 +218,30 @@ def _foreign_route(h):
     return cells.info_py(Cell.one_from_boc(bytes.fromhex(h)))
 
 
+def _slice_history_route(d):
+    objs = cells.build_py(d)
+    kept = []
+    for c0 in objs:
+        sl = c0.begin_parse()
+        c = sl.to_cell()
+        try:
+            sl.load_bits(min(8, len(sl.bits)))
+            sl.load_bits(min(8, len(sl.bits)))
+            sl.skip_bits(min(250, len(sl.bits)))
+            if sl.refs:
+                sl.load_ref()
+        except Exception:
+            pass
+        kept.append(c)
+    # the kept copy of every node must report what the node reports; then the root rebuilt over the kept children
+    for c0, c in zip(objs[:-1], kept[:-1]):
+        if cells.info_py(c) != cells.info_py(c0):
+            return "kept child differs: " + cells.info_py(c)
+    ty, bits, refs = d[-1]
+    from pytoniq_core.boc.cell import Cell
+    return cells.info_py(Cell(cells.tvm_bits(bits), [kept[r] for r in refs], ty))
+
+
 def _boc_route(d):
     from pytoniq_core.boc.cell import Cell
     c0 = cells.build_py(d)[-1]
@@ -276,6 +314,9 @@ def replay(ctx, obj):
         if c.get("route") == "foreign":
             r = core.call_impl(lambda _: _foreign_route(c["boc"]), None)
             return None if r == a else f"stored-hashes BoC parses to something else: {r[:100]}"
+        if c.get("route") == "slice-history":
+            r = core.call_impl(lambda _: _slice_history_route(d), None)
+            return None if r == a else f"after slice.to_cell() and further reads: {r[:100]}"
         if c.get("route") == "boc":
             r = core.call_impl(lambda _: _boc_route(d), None)
             return None if r == a else f"after BoC round trip: {r[:100]}"
